@@ -1368,6 +1368,33 @@ def rule_r12(prog, res):
                     'functions never run')
 
 
+def rule_r13(prog, res):
+    res.rule('R13', 'the auxiliary methods of a successful request are run '
+             'after the last point at which the request can still be handed '
+             'to handle_error, which runs them as well')
+    w = prog.cls('spyne.server.wsgi:WsgiApplication')
+    f = w.methods.get('handle_rpc')
+    if f is None:
+        raise AnalysisError('WsgiApplication.handle_rpc', 'not found')
+    errs = [c for c in calls_in(f.node) if call_name(c) == 'handle_error']
+    aux = [c for c in calls_in(f.node) if call_name(c) == 'process_contexts']
+    res.floor('R13', 'handle_error / process_contexts calls in handle_rpc',
+              min(len(errs), len(aux)), 1)
+    for c in aux:
+        late = [e for e in errs if e.lineno > c.lineno]
+        where = '%s:%d' % (f.module.relpath, c.lineno)
+        res.ob('R13', where, 'handle_rpc runs the auxiliary contexts with %d '
+               'handle_error exits still ahead' % len(late),
+               'VIOLATED' if late else 'ok')
+        if late:
+            res.finding('R13', 'WsgiApplication.handle_rpc|aux-before-error-'
+                        'exit', where, 'process_contexts(others) runs before '
+                        'the handle_error exit at line %d: when producing the '
+                        'response fails after it, handle_error runs the '
+                        'auxiliary methods again - twice for one request' %
+                        late[0].lineno)
+
+
 def run(prog, res, tier):
     res.run_rule(rule_r1, prog, res, tier)
     res.run_rule(rule_r2, prog, res)
@@ -1381,6 +1408,7 @@ def run(prog, res, tier):
     res.run_rule(rule_r10, prog, res)
     res.run_rule(rule_r11, prog, res)
     res.run_rule(rule_r12, prog, res)
+    res.run_rule(rule_r13, prog, res)
 
 
 _P = 'spyne/protocol/_base.py'
@@ -1391,6 +1419,13 @@ _W = 'spyne/server/wsgi.py'
 _X = 'spyne/protocol/xml.py'
 
 MUTANTS = [
+    Mutant('aux-contexts-before-late-error-exits', 'R13', 'fire',
+           'spyne/server/wsgi.py',
+           in_func('WsgiApplication.handle_rpc',
+                   "        assert p_ctx.out_object is not None\n",
+                   "        process_contexts(self, others, p_ctx, error=None)\n"
+                   "        assert p_ctx.out_object is not None\n"),
+           'aux-before-error-exit'),
     Mutant('in-message-bare-for-out-bare', 'R12', 'fire', 'spyne/decorator.py',
            in_func('_produce_input_message',
                    "    if body_style_str == 'bare':\n",
